@@ -644,3 +644,147 @@ func (e *explorer) docsUnder(m map[string]uint64) map[string]string {
 	}
 	return out
 }
+
+// ---------------------------------------------------------------------------------------------
+// Decoding a harness-built document tree (verifrt.EncodeTree / DecodeTree): the harness describes
+// a document as map[string]any / []any / string / int / bool / nil values (strings may carry
+// symbolic bytes); natively it is marshalled to text and read by the real decoder, under the
+// engine the decoder stub assigns the tree to the decode target by the struct tags.
+
+func (e *explorer) registerTree(name, format string, tree value) {
+	if e.trees == nil {
+		e.trees = map[string]treeRec{}
+	}
+	e.trees[name] = treeRec{format: format, tree: tree}
+}
+
+type treeRec struct {
+	format string
+	tree   value
+}
+
+func lookupKey(m *omap, name, format string) (value, bool) {
+	if v, ok := m.lookup(name); ok {
+		return v, true
+	}
+	if format == "json" || format == "toml" {
+		// both decoders fall back to a case-insensitive match
+		for _, s := range m.liveSlots() {
+			if k, ok := m.keys[s].(string); ok && strings.EqualFold(k, name) {
+				return m.vals[s], true
+			}
+		}
+	}
+	return nil, false
+}
+
+// assignTree builds the value of type t that decoding tree would produce.
+func assignTree(t types.Type, tree value, format string) value {
+	if it, ok := tree.(iface); ok {
+		if it.t == nil {
+			return zero(t)
+		}
+		if _, isAny := t.Underlying().(*types.Interface); isAny {
+			return it
+		}
+		tree = it.v
+	}
+	if tree == nil {
+		return zero(t)
+	}
+	if m := hasCustomUnmarshal(t); m != "" {
+		panic(engineError{"DecodeTree: " + t.String() + " decodes itself (" + m + "); not modelled"})
+	}
+	switch u := t.Underlying().(type) {
+	case *types.Struct:
+		m, ok := tree.(*omap)
+		if !ok {
+			panic(engineError{"DecodeTree: object expected for " + t.String()})
+		}
+		s := make(structure, u.NumFields())
+		for i := range s {
+			f := u.Field(i)
+			s[i] = zero(f.Type())
+			if !f.Exported() {
+				continue
+			}
+			name := tagName(u.Tag(i), format, f.Name())
+			if name == "-" {
+				continue
+			}
+			if _, isStruct := f.Type().Underlying().(*types.Struct); isStruct && f.Anonymous() {
+				if _, tagged := reflect.StructTag(u.Tag(i)).Lookup(format); !tagged {
+					s[i] = assignTree(f.Type(), m, format)
+					continue
+				}
+			}
+			if v, ok := lookupKey(m, name, format); ok {
+				s[i] = assignTree(f.Type(), v, format)
+			}
+		}
+		return s
+	case *types.Slice:
+		l, ok := tree.([]value)
+		if !ok {
+			panic(engineError{"DecodeTree: list expected for " + t.String()})
+		}
+		out := make([]value, len(l))
+		for i := range l {
+			out[i] = assignTree(u.Elem(), l[i], format)
+		}
+		return out
+	case *types.Map:
+		m, ok := tree.(*omap)
+		if !ok {
+			panic(engineError{"DecodeTree: object expected for " + t.String()})
+		}
+		out := makeMap(u.Key(), 0).(*omap)
+		for _, s := range m.liveSlots() {
+			out.insert(m.keys[s], assignTree(u.Elem(), m.vals[s], format))
+		}
+		return out
+	case *types.Pointer:
+		cell := new(value)
+		*cell = assignTree(u.Elem(), tree, format)
+		return cell
+	case *types.Basic:
+		switch {
+		case u.Kind() == types.String:
+			switch s := tree.(type) {
+			case string, symstr:
+				return s
+			}
+		case u.Kind() == types.Bool:
+			if b, ok := tree.(bool); ok {
+				return b
+			}
+			if sv, ok := tree.(symv); ok {
+				return sv
+			}
+		case u.Info()&types.IsInteger != 0:
+			var n int64
+			switch x := tree.(type) {
+			case int:
+				n = int64(x)
+			case int64:
+				n = x
+			case float64:
+				n = int64(x)
+			default:
+				panic(engineError{"DecodeTree: number expected for " + t.String()})
+			}
+			return conv(t, types.Typ[types.Int64], n)
+		case u.Info()&types.IsFloat != 0:
+			switch x := tree.(type) {
+			case float64:
+				return conv(t, types.Typ[types.Float64], x)
+			case int:
+				return conv(t, types.Typ[types.Int], x)
+			}
+		}
+		panic(engineError{fmt.Sprintf("DecodeTree: %T does not fit %s", tree, t)})
+	case *types.Interface:
+		return zero(t)
+	}
+	panic(engineError{"DecodeTree: unsupported target type " + t.String()})
+}
